@@ -49,14 +49,16 @@ PROPS = {
              'Verus proves get/nth/front/back/as_slices/make_contiguous against the view for all N and all indices including usize::MAX; Kani proves per capacity that every accessor '
              '(incl. Index/IndexMut, iter, iter_mut, as_mut_slices, to_vec) returns the address of exactly the slot holding that position, pairwise distinct, and that a write through it changes only that position.',
              not_covered=['Debug output under every formatter flag (assumed contract of core::fmt::DebugList; the crate-side obligation that (&buf).into_iter() yields the view is checked)']),
-    'C12': P('other', False,
+    'C12': P('other', True,
              'Kani contracts per (N, M): new/default/boxed empty; From<[T;M]>, from_iter, extend keep the last N in order and destroy the rest exactly once (ledger); clone/clone_from/to_vec give '
              'fresh clones (parent ids) in order, source untouched, nothing shared; into_iter yields the original elements in order. Bounded in N and M.'),
-    'C08': P('other', False,
+    'C08': P('proof', True,
+             'Verus proves the single-step contracts of Iter (new, next, next_back, len, size_hint, clone, empty) and IntoIter (next, next_back, len, size_hint) over the abstract '
+             'remaining-elements view for all N, T and all states, so every interleaving follows by induction and exhausted iterators stay exhausted; the len() overflow-freedom needs the invariant |right|+|left| <= usize::MAX. '
              'Kani single-step contracts for Iter / IterMut / IntoIter over every (Bound, Bound) pair and every interleaving of next / next_back up to N+1 steps: each call yields the '
              'front-most / back-most selected element not yet produced (by id and by address), len()/size_hint() are exact at every step, a cloned Iter continues independently, '
-             'exhausted iterators stay exhausted, default iterators are empty. Complete per capacity N, bounded in N. (Verus part for Iter::next/next_back/len: see DESIGN.md, stretch goal.)'),
-    'C09': P('other', False,
+             'exhausted iterators stay exhausted, default iterators are empty. Complete per capacity N, bounded in N; over_range / IterMut are covered by the Kani leg only (vstd gives no usable spec for generic RangeBounds / split_first_mut on &mut &mut [T]).'),
+    'C09': P('other', True,
              'Kani contract for drain over every (Bound, Bound) pair, every layout, every interleaving of next / next_back up to N+1 steps and drop after any number of steps: yields exactly '
              'orig[a..b] in order, exact len, afterwards the buffer is orig[..a] ++ orig[b..], every drained element not handed out is destroyed exactly once (ledger); capacities include 0. Bounded in N.'),
     'C10': P('other', False,
